@@ -74,6 +74,17 @@ pub(crate) fn tokenize(
     fileid: usize,
     filetext: &str,
 ) -> Result<TokenResult, TokenizerError> {
+    // the stack of files that are currently being included is needed to detect recursive includes
+    let mut include_stack = vec![filename.full.clone()];
+    tokenize_nested(filename, fileid, filetext, &mut include_stack)
+}
+
+fn tokenize_nested(
+    filename: &Filename,
+    fileid: usize,
+    filetext: &str,
+    include_stack: &mut Vec<std::ffi::OsString>,
+) -> Result<TokenResult, TokenizerError> {
     let mut filenames: Vec<Filename> = vec![filename.clone()];
     let mut filedatas: Vec<String> = vec![filetext.to_owned()];
     let filebytes = filetext.as_bytes();
@@ -122,13 +133,22 @@ pub(crate) fn tokenize(
 
                 // check if incname is an accessible file
                 let incpathref = Path::new(&incfilename);
-                let loadresult = loader::load(incpathref);
+                // a file that includes itself (directly or indirectly) can never be loaded
+                let loadresult = if include_stack.contains(&incfilename) {
+                    Err(())
+                } else {
+                    loader::load(incpathref).map_err(|_| ())
+                };
                 if let Ok(incfiledata) = loadresult {
-                    let mut tokresult = tokenize(
+                    include_stack.push(incfilename.clone());
+                    let nested_result = tokenize_nested(
                         &Filename::new(incfilename, incname),
                         next_fileid,
                         &incfiledata,
-                    )?;
+                        include_stack,
+                    );
+                    include_stack.pop();
+                    let mut tokresult = nested_result?;
 
                     next_fileid += tokresult.filenames.len();
 
